@@ -949,6 +949,155 @@ def check_truthiness(ctx: Ctx, files: List[str]):
     ctx.ok("G.8", f"{len(files)} anchor file(s)", f"{n} truthiness tests of model-valued fields checked")
 
 
+# ---------------------------------------------------------------------------------------------------------------- G.10
+BYPASS_CONSTRUCT = {"model_construct", "construct"}
+BYPASS_COPY = {"model_copy", "copy"}
+
+
+def _guards_of(class_nodes):
+    """(validator names, {field: constraint keywords}) declared by the given ClassDef nodes (a class and its in-package bases)"""
+    vals, cons = [], {}
+    for c in class_nodes:
+        for st in c.body:
+            if isinstance(st, ast.FunctionDef):
+                for d in st.decorator_list:
+                    nm = ast.unparse(d.func if isinstance(d, ast.Call) else d).split(".")[-1]
+                    if nm in ("field_validator", "model_validator", "validator", "root_validator"):
+                        flds = [a.value for a in (d.args if isinstance(d, ast.Call) else []) if isinstance(a, ast.Constant)]
+                        vals.append((st.name, nm, flds))
+            elif isinstance(st, ast.AnnAssign) and isinstance(st.target, ast.Name):
+                ks = []
+                for x in ast.walk(st):
+                    if isinstance(x, ast.Call) and ast.unparse(x.func).split(".")[-1] == "Field":
+                        ks += [k.arg for k in x.keywords if k.arg in CONSTRAINT_KEYS and k.arg not in ("alias", "validation_alias", "serialization_alias", "exclude", "frozen")]
+                    if isinstance(x, ast.Call) and ast.unparse(x.func).split(".")[-1] in ("AfterValidator", "BeforeValidator", "PlainValidator", "WrapValidator"):
+                        ks.append(ast.unparse(x.func).split(".")[-1])
+                if ks:
+                    cons[st.target.id] = ks
+    return vals, cons
+
+
+def _bypass_sites(tree, class_of):
+    """[(call node, enclosing function name, kind, class name or None, class nodes or None, updated field names or None)]"""
+    out = []
+    parents = {}
+    for n in ast.walk(tree):
+        for ch in ast.iter_child_nodes(n):
+            parents[ch] = n
+
+    def enclosing(n):
+        fn = cls = None
+        while n in parents:
+            n = parents[n]
+            if fn is None and isinstance(n, (ast.FunctionDef, ast.AsyncFunctionDef)):
+                fn = n
+            if cls is None and isinstance(n, ast.ClassDef):
+                cls = n
+        return fn, cls
+
+    for x in ast.walk(tree):
+        if not (isinstance(x, ast.Call) and isinstance(x.func, ast.Attribute)):
+            continue
+        a = x.func.attr
+        if a in BYPASS_CONSTRUCT:
+            kind, fields = "construct", [k.arg for k in x.keywords if k.arg and k.arg != "_fields_set"]
+        elif a in BYPASS_COPY:
+            upd = next((k.value for k in x.keywords if k.arg == "update"), None)
+            if upd is None or (isinstance(upd, ast.Constant) and upd.value is None):
+                continue
+            kind = "copy"
+            fields = [k.value for k in upd.keys if isinstance(k, ast.Constant)] if isinstance(upd, ast.Dict) and all(k is not None for k in upd.keys) else None
+            if isinstance(upd, ast.Call) and isinstance(upd.func, ast.Name) and upd.func.id == "dict" and not upd.args:
+                fields = [k.arg for k in upd.keywords if k.arg]
+        else:
+            continue
+        fn, cls = enclosing(x)
+        out.append((x, fn.name if fn else "<module>", kind, fields, class_of(x.func.value, fn, cls)))
+    return out
+
+
+def check_validation_bypass(ctx: Ctx, files: List[str]):
+    """pydantic runs validators in `Model(...)` / `model_validate`, never in `model_construct(...)` or `model_copy(update=...)`:
+    an instance built that way is not checked, not normalised and not coerced."""
+    ctx.rule("G.10", "no model instance is built or altered past its validators (model_construct / model_copy(update=...))", 1)
+    index, models = ctx.index, ctx.models
+    # positive fixture
+    fx = os.path.join(os.path.dirname(os.path.dirname(os.path.abspath(__file__))), "fixtures", "effects.py")
+    ftree = ast.parse(open(fx).read())
+    fclasses = {c.name: c for c in ast.walk(ftree) if isinstance(c, ast.ClassDef)}
+
+    def f_class_of(recv, fn, cls):
+        if isinstance(recv, ast.Name) and recv.id in fclasses:
+            return recv.id, [fclasses[recv.id]]
+        return None
+
+    fhits = [s_ for s_ in _bypass_sites(ftree, f_class_of) if s_[4] and (_guards_of(s_[4][1])[0] or _guards_of(s_[4][1])[1])]
+    if len(fhits) < 2:
+        ctx.undec("G.10", "fixtures/effects.py", "the positive fixture (model_construct / model_copy(update=) on a validated model) is not reported: the rule cannot fire")
+        return
+    n = 0
+    for m in _scope_modules(ctx, files):
+        def class_of(recv, fn, cls, m=m):
+            ci = None
+            if isinstance(recv, (ast.Name, ast.Attribute)):
+                if isinstance(recv, ast.Name) and recv.id in ("cls", "self") and cls is not None:
+                    ci = m.classes.get(cls.name)
+                elif isinstance(recv, ast.Name) and fn is not None:
+                    for p in list(fn.args.posonlyargs) + list(fn.args.args) + list(fn.args.kwonlyargs):
+                        if p.arg == recv.id and p.annotation is not None:
+                            for y in ast.walk(p.annotation):
+                                if isinstance(y, (ast.Name, ast.Attribute)):
+                                    try:
+                                        sy = index.resolve_expr(m, y)
+                                    except Exception:  # noqa: BLE001
+                                        sy = None
+                                    if sy is not None and sy.kind == "class" and ":" in sy.qual and ci is None:
+                                        ci = index.class_by_qual(sy.qual)
+                if ci is None:
+                    try:
+                        sy = index.resolve_expr(m, recv)
+                    except Exception:  # noqa: BLE001
+                        sy = None
+                    if sy is not None and sy.kind == "class" and ":" in sy.qual:
+                        ci = index.class_by_qual(sy.qual)
+                if ci is None and isinstance(recv, ast.Attribute):
+                    # obj.field.model_copy(...): the declared class of that field, when obj is an annotated parameter
+                    inner = class_of(recv.value, fn, cls)
+                    if inner is not None:
+                        owner = next((index.class_by_qual(q) for q in [getattr(inner[2], "qual", None)] if q), None)
+                        if owner is not None:
+                            fi = models.field_map(owner).get(recv.attr)
+                            shp = fi.shape if fi is not None else None
+                            while shp is not None and shp[0] in ("opt",):
+                                shp = shp[1]
+                            if shp is not None and shp[0] == "cls":
+                                ci = index.class_by_qual(shp[1])
+            if ci is None or not models.is_model(ci):
+                return None
+            return ci.name, [c.node for c in ci.mro()], ci
+
+        for x, fname, kind, fields, cinfo in _bypass_sites(m.tree, class_of):
+            n += 1
+            call = ast.unparse(x)[:70]
+            if cinfo is None:
+                ctx.undec("G.10", f"{m.relpath}:{x.lineno} {fname}", f"`{call}` builds / alters an object without validation and its class is not resolved")
+                continue
+            cname, nodes = cinfo[0], cinfo[1]
+            vals, cons = _guards_of(nodes)
+            if kind == "copy" and fields is not None:
+                vals = [v for v in vals if v[1] in ("model_validator", "root_validator") or not v[2] or set(v[2]) & set(fields) or "*" in v[2]]
+                cons = {k: v for k, v in cons.items() if k in fields}
+            if vals or cons:
+                what = "; ".join([f"validator {v[0]}" for v in vals[:4]] + [f"{k}: {', '.join(v)}" for k, v in list(cons.items())[:3]])
+                ctx.bad("G.10", m.relpath, fname, call,
+                        f"`{call}` {'builds' if kind == 'construct' else 'alters'} a {cname} without running its validation ({what}): "
+                        f"values that `{cname}(...)` rejects or normalises are stored as given, so every invariant those validators "
+                        f"establish can be bypassed on this path", x.lineno, witness={"class": cname, "skipped": what})
+            else:
+                ctx.ok("G.10", f"{m.relpath}:{x.lineno} {fname}", f"{cname} has no validators / constraints on the affected fields (only coercion is skipped)")
+    ctx.ok("G.10", f"{len(files)} anchor file(s)", f"{n} unvalidated constructions found in the modules in scope; positive fixture reported")
+
+
 # ---------------------------------------------------------------------------------------------------------------- G.9
 def export_divergences(index, ref):
     """[(package, public name, reference qual, current qual)] for the public function names of the package's __init__ modules
